@@ -13,7 +13,8 @@
 (* replays, each with the expected observation of every step.              *)
 (*                                                                         *)
 (* The mechanism is data (MechName): "intended" is what the property       *)
-(* needs; the other three are the defects that were repaired in the        *)
+(* needs; the others are defects (three repaired ones, and "returns_cached_ *)
+(* arrays": results memoised and handed out without a copy)               *)
 (* implementation -- TLC must find them violating the invariants, which    *)
 (* shows the invariants can fail (the check runs them expecting exactly    *)
 (* that).                                                                  *)
@@ -35,32 +36,47 @@ Tags    == Rules \X BOOLEAN                       \* <<rule, latlon>>
 
 Mech == [ computeWritesSlots |-> MechName = "compute_writes_slots",
           slotsInitialised   |-> MechName # "slots_not_initialised",
-          chunkSafe          |-> MechName # "chunk_unsafe" ]
+          chunkSafe          |-> MechName # "chunk_unsafe",
+          \* compute_face_areas memoises per request and hands out the memoised arrays themselves
+          returnsCached      |-> MechName = "returns_cached_arrays" ]
+Edited == <<"edited", FALSE>>                       \* a value some caller changed in place (equals no fresh value)
 
 Acts == { <<"compute", t>> : t \in Tags }         \* Grid.compute_face_areas(rule, order, latlon)
         \cup { <<"total", r>> : r \in Rules }     \* Grid.calculate_total_face_area(rule, order)
         \cup { <<"face_areas">>, <<"face_jacobian">>, <<"chunk">> }
+        \* the caller changes, in place, the arrays the most recent compute_face_areas RETURNED to it
+        \* (rescaling to km^2, zeroing, reordering): results belong to the caller
+        \cup { <<"edit", h>> : h \in {"scale", "zero", "reverse"} }
 
 InitState == [ areas |-> None,
                jac   |-> IF Mech.slotsInitialised THEN None ELSE Unset,
-               chunked |-> FALSE ]
+               chunked |-> FALSE,
+               memo |-> {},          \* requests whose result is memoised (mechanism returns_cached_arrays only)
+               dirty |-> {},         \* memoised results a caller has edited through the array it was handed
+               held |-> None ]       \* the request whose returned arrays the caller holds (the most recent compute)
+Seen(st, t) == IF Mech.returnsCached /\ t \in st.dirty THEN Edited ELSE t
 
 \* the kernel call behind compute_face_areas: what it returns, and what it leaves in the slots
 Kernel(st, t) ==
     IF st.chunked /\ ~Mech.chunkSafe THEN [ st |-> st, res |-> <<"raises">> ]
-    ELSE [ st  |-> IF Mech.computeWritesSlots THEN [ st EXCEPT !.jac = t ] ELSE st,
-           res |-> <<"pair", t, t>> ]             \* (areas, jacobian) of the requested quadrature
+    ELSE [ st  |-> [ (IF Mech.computeWritesSlots THEN [ st EXCEPT !.jac = t ] ELSE st)
+                       EXCEPT !.memo = IF Mech.returnsCached THEN @ \cup {t} ELSE @ ],
+           res |-> <<"pair", Seen(st, t), Seen(st, t)>> ]     \* (areas, jacobian) of the requested quadrature
 
+\* face_areas wraps the default request's arrays: under returns_cached_arrays it shares the memoised buffer
 ReadAreas(st) ==
-    IF st.areas # None THEN [ st |-> st, res |-> <<"areas", st.areas>> ]
+    IF st.areas # None THEN [ st |-> st, res |-> <<"areas", Seen(st, st.areas)>> ]
     ELSE LET k == Kernel(st, Default) IN
          IF k.res = <<"raises">> THEN k
-         ELSE [ st |-> [ k.st EXCEPT !.areas = Default, !.jac = Default ], res |-> <<"areas", Default>> ]
+         ELSE [ st |-> [ k.st EXCEPT !.areas = Default, !.jac = Default ], res |-> <<"areas", Seen(st, Default)>> ]
 
 Apply(st, a) ==
-    CASE a[1] = "compute"       -> Kernel(st, a[2])
+    CASE a[1] = "compute"       -> LET k == Kernel(st, a[2]) IN
+                                   IF k.res = <<"raises">> THEN k ELSE [ st |-> [ k.st EXCEPT !.held = a[2] ], res |-> k.res ]
       [] a[1] = "total"         -> LET k == Kernel(st, <<a[2], TRUE>>) IN
-                                   IF k.res = <<"raises">> THEN k ELSE [ st |-> k.st, res |-> <<"total", <<a[2], TRUE>>>> ]
+                                   IF k.res = <<"raises">> THEN k ELSE [ st |-> k.st, res |-> <<"total", Seen(st, <<a[2], TRUE>>)>> ]
+      [] a[1] = "edit"          -> [ st |-> IF Mech.returnsCached /\ st.held # None THEN [ st EXCEPT !.dirty = @ \cup {st.held} ] ELSE st,
+                                     res |-> <<"done">> ]
       [] a[1] = "face_areas"    -> ReadAreas(st)
       [] a[1] = "face_jacobian" -> IF st.jac = Unset THEN [ st |-> st, res |-> <<"raises">> ]
                                    ELSE IF st.jac # None THEN [ st |-> st, res |-> <<"jac", st.jac>> ]
@@ -75,6 +91,7 @@ vars == <<st, hist, ti>>
 
 Init == st = InitState /\ hist = <<>> /\ ti = 0
 Do(a) == /\ Len(hist) < MaxLen
+         /\ (a[1] = "edit" => st.held # None)          \* there is a returned array to edit
          /\ ti' = ti
          /\ st' = Apply(st, a).st
          /\ hist' = Append(hist, [ act |-> a, res |-> Apply(st, a).res ])
@@ -88,6 +105,7 @@ ResOK(a, res) ==
       [] a[1] = "face_areas"    -> res = <<"areas", Default>>
       [] a[1] = "face_jacobian" -> res = <<"jac", Default>>
       [] a[1] = "chunk"         -> res = <<"done">>
+      [] a[1] = "edit"          -> res = <<"done">>
 
 NeverRaises          == \A i \in 1..Len(hist) : hist[i].res # <<"raises">>
 CachedIsDefault      == \A i \in 1..Len(hist) : hist[i].act[1] = "face_areas" /\ hist[i].res # <<"raises">> => ResOK(hist[i].act, hist[i].res)
@@ -112,6 +130,7 @@ TrNext == ti < 0 /\ ti' \in { k \in 1..Len(Recs) : (k - 1) \div TrBlock = (-ti) 
 
 ActOf(s) == IF s.act[1] = "compute" THEN <<"compute", <<s.act[2], s.act[3]>>>>
             ELSE IF s.act[1] = "total" THEN <<"total", s.act[2]>>
+            ELSE IF s.act[1] = "edit" THEN <<"edit", s.act[2]>>
             ELSE <<s.act[1]>>
 TagSet(q) == { <<q[i][1], q[i][2]>> : i \in 1..Len(q) }
 \* the observation agrees with the expected abstract result
